@@ -9,7 +9,8 @@ echo "patch lines: $(wc -l < "$wt/patch.check.diff")" >> "$log"
 cargo nextest run --workspace --no-fail-fast --offline --test-threads 6 > "$wt/suite_with.log" 2>&1
 grep -E "Summary|FAIL" "$wt/suite_with.log" | sort -u | head -20 >> "$log"
 cargo test --offline --test seeded_demo > "$wt/demo_with.log" 2>&1; echo "demo with change rc=$?" >> "$log"
-git stash push -q -- src/
+# (git stash is shared by all worktrees of a repository: toggle the change with apply -R instead)
+git apply -R "$wt/patch.check.diff"
 cargo test --offline --test seeded_demo > "$wt/demo_without.log" 2>&1; echo "demo without change rc=$?" >> "$log"
-git stash pop -q
+git apply "$wt/patch.check.diff"
 echo DONE >> "$log"
